@@ -104,7 +104,11 @@ func (m *Model) judgePublish(w *Window, oi int) *PubJ {
 		}
 		j.Matching[c.ID] = match
 		j.Shared[c.ID] = shared
-		touched := t.Sess[c.ID] || (c.Conn != nil && t.Conns[c.Conn.Idx]) || c.Uncertain
+		late := c.Conn != nil && m.Late[c.Conn.Idx] // its subscription set is not known at every instant (see Model.Late)
+		touched := t.Sess[c.ID] || (c.Conn != nil && t.Conns[c.Conn.Idx]) || c.Uncertain || late
+		if late && (j.Accepted || pubTouched) {
+			j.May[c.ID] = true
+		}
 		subTouched := false
 		for f := range t.Subs[c.ID] {
 			if refmatch.MatchSub(f, topic) {
